@@ -192,6 +192,20 @@ func (e *Enc) enterLoop(fr *Frame, li *loopInfo, pre *State) *State {
 			e.assume(pre, c) // checked above; kept as a lemma about the pre-loop state
 		}
 	}
+	// termination: range loops over a slice or map evaluate their operand once and are finite;
+	// any other loop needs a decreases clause or a stated assumption
+	if cm := li.head.Comment; cm != "rangeindex.loop" && cm != "rangeiter.loop" {
+		hasDecr := li.spec != nil && li.spec.Decreases != nil
+		reason := ""
+		if fr.fc != nil {
+			reason = fr.fc.LoopsAssumedToTerminate[li.ordinal]
+		}
+		if reason != "" {
+			e.assumedUsed[fmt.Sprintf("loop %d of %s%s is assumed to terminate / meant to run forever: %s", li.ordinal, fr.prefix, e.Unit, reason)] = true
+		} else if !hasDecr {
+			e.oblig(pre, "termination", label+":no-decreases-clause", False, li.head.Instrs[0].Pos(), nil, nil)
+		}
+	}
 	li.preSt = pre
 	head := pre.clone()
 	e.epochCounter++
